@@ -137,6 +137,25 @@ CLAIMS = {
              "valid [i,j], the 2-D views and process.average; TLC judges the recorded results (NaN padding included) against the "
              "specification.",
         ref="DESIGN.md 4 (C17)", note=TB),
+    "C18": dict(
+        technique="TLA+ registry invariants (DatasetRegistry.tla) and sequential-pair instance of DatasetCache evaluated by TLC on a registry extracted from the working tree; TLC trace validation of real load_dataset calls",
+        text="The registry (95 documented names from the shipped description tables, and what load_dataset does for each with the remote "
+             "loader stubbed) is extracted from the working tree at check time; TLC evaluates the invariants (every name resolves, URL / "
+             "checksum / remote file / cache slot injective, '-'/'_' variants agree) and explores sequential healthy loads of all ordered "
+             "pairs of the 76 remote datasets (NoCrossTalk, distinct slots); every name is then replayed through the real load_dataset "
+             "(both unpack values, fake network, TRAFFIC_WEAVER_DATA honoured) and the recorded events are judged by TLC; a model-level "
+             "counterexample becomes a VIOLATION only after it has been reproduced on the real loader.",
+        ref="DESIGN.md 4 (C18), 10.7", note=TB + "; payloads are synthetic, _sha256 is replaced by a table for registry-level loads (and checked against hashlib separately)"),
+    "C19": dict(
+        technique="TLA+ specification of the remote loader as processes x network x filesystem x crashes (DatasetCache.tla) model-checked by TLC incl. liveness; TLC trace validation of real forked, step-gated loaders with real SIGKILLs",
+        category="model_checking",
+        text="TLC explores every interleaving, fault sequence and crash point of 1 and 2 (thorough: 3) loader processes (13 step boundaries, "
+             "Crash at each, probe loads afterwards) checking CacheSound, NeverUnverified, OfflineWhenCached, RetryBound, NoCrossTalk and, "
+             "under fairness, LaterLoadSucceeds; the labelled state graph is dumped and a transition cover plus seeded walks, simulated "
+             "many-process behaviours and random schedules are replayed into real forked loader processes gated at the step boundaries, "
+             "killed with SIGKILL at the chosen boundary; after every step the cache slots, temp files, network calls and results are "
+             "recorded and the traces are validated by TLC (C19.* clauses = violation, step-level deviation = drift).",
+        ref="DESIGN.md 4 (C19), 10.7", note=TB + "; step boundaries exist where module-level names of _base are rebound; the kernel provides fork, SIGKILL and rename atomicity"),
     "C20": dict(
         technique="TLA+ argument checks (Weaver!Rejects, function-level judges) with the frame condition as a TLC action property; TLC trace validation of refused real calls with bitwise before/after snapshots",
         text="The specification decides which requests are invalid; TLC checks on the model that a refused operation leaves the state "
